@@ -464,7 +464,9 @@ OnCb(m, e) ==
         m3 == Flag(m2, known /\ ob.vs \notin {"live", "moved", "pending"}, IF ob.vs = "uninit" THEN "C14" ELSE "C03", "value of object " \o ToString(o) \o " dropped in state " \o ob.vs)
         m4 == Flag(m3, known /\ ~e.ok /\ ob.vs \in {"live", "moved", "pending"}, "C03", "destructor ran on a corrupted value: object " \o ToString(o))
         m5 == Flag(m4, known /\ m.cfg.fin /\ ob.vs = "live" /\ ob.armed = "yes" /\ ~ob.tainted /\ ~m.faulted, "C05", "object " \o ToString(o) \o " dropped without having been finalized")
-        m6 == IF known /\ ob.vs \in {"live", "moved", "pending"} THEN [m5 EXCEPT !.objs[o].vs = "dropped"] ELSE m5
+        m5b == Flag(m5, known /\ m.cfg.fin /\ ob.vs = "live" /\ ob.armed = "yes" /\ ~ob.tainted /\ ~m.faulted /\ ~CollRunning(m), "C04",
+                    "the last-owner drop of object " \o ToString(o) \o " did not finalize it although finalization was due")
+        m6 == IF known /\ ob.vs \in {"live", "moved", "pending"} THEN [m5b EXCEPT !.objs[o].vs = "dropped"] ELSE m5b
     IN Push(BumpNcb(m6), CbFrame(k, o))
   ELSE IF k = "action" THEN
     LET c == o
